@@ -199,6 +199,13 @@ func c09Gen(tier string, seed int64) []fw.Case {
 				}
 			}
 		}
+		// the peer never reads, local writers are stuck holding the frame lock, and the peer sends a Ping that the
+		// local reader cannot answer: its Pong waits 5 s for the frame lock and gives up; the closer comes after that
+		for _, st := range []string{"writer-blocked+peer-ping/read", "writer-blocked+peer-ping/closeread"} {
+			for _, cl := range []string{"Close", "CloseNow"} {
+				add(c09Desc{Role: role, Adversary: "never-reads", State: st, Closer: cl})
+			}
+		}
 		// message writers around the close: one left open and closed only after the connection has been closed,
 		// and one that was written to again after its Close (an error) long before
 		for _, adv := range []string{"silent", "late-echo", "half-close"} {
@@ -367,7 +374,25 @@ func c09Run(r *fw.R, d c09Desc) {
 		if d.Seed%2 == 0 {
 			crCtx, crCtx2 = crCtx2, crCtx
 		}
-	case "writer-blocked", "writer-blocked-deflate":
+	case "writer-blocked", "writer-blocked-deflate", "writer-blocked+peer-ping/read", "writer-blocked+peer-ping/closeread":
+		if d.State == "writer-blocked+peer-ping/read" {
+			block("Read", func() {
+				for {
+					if _, _, err := c.Read(ctx); err != nil {
+						return
+					}
+				}
+			})
+		} else if d.State == "writer-blocked+peer-ping/closeread" {
+			crCtx = c.CloseRead(ctx)
+		}
+		if strings.HasPrefix(d.State, "writer-blocked+peer-ping") {
+			defer func(t0 time.Time) { r.Max("peer_ping_unanswerable_case_s", int64(time.Since(t0).Seconds())) }(time.Now())
+			go func() {
+				time.Sleep(50 * time.Millisecond) // the writers are stuck by now
+				peer.Send(wire.Ping([]byte("are you there?")))
+			}()
+		}
 		for i := 0; i < 2; i++ {
 			block("Write", func() {
 				for {
@@ -450,6 +475,12 @@ func c09Run(r *fw.R, d c09Desc) {
 	}
 	// let the blocked calls block
 	time.Sleep(30 * time.Millisecond)
+	if strings.HasPrefix(d.State, "writer-blocked+peer-ping") {
+		// ... and let the reader's Pong give up waiting for the frame lock (5 s)
+		time.Sleep(5600 * time.Millisecond)
+		canaryMax.Store(0)
+		r.Count("closers_after_an_unanswerable_peer_ping", 1)
+	}
 
 	what := fmt.Sprintf("%s adversary=%s frame=%s@%d state=%s closer=%s", d.Role, d.Adversary, d.Frame, d.StallAt, d.State, d.Closer)
 	stallClass := ""
